@@ -27,6 +27,48 @@ def configs(ctx):
     return one, two
 
 
+def mode_tables(ctx):
+    """R-MODE: the two copies of mode_to_int / int_to_mode are mutually inverse, agree with each other, and
+    reject unknown names"""
+    from ..parallel import session
+    S = session(ctx.repo)
+    out, n = [], 0
+    names = ['zero', 'symmetric', 'periodization', 'constant', 'reflect', 'replicate', 'periodic']
+    tabs = {}
+    for mod in ('pytorch_wavelets.dwt.lowlevel', 'pytorch_wavelets.scatternet.lowlevel'):
+        m2i, i2m = S.get(mod, 'mode_to_int'), S.get(mod, 'int_to_mode')
+        t = {}
+        for nm in names + ['per']:
+            n += 1
+            o = S.run(m2i, nm)
+            if o.kind != 'ok' or not isinstance(o.value, int):
+                out.append(dwtlib.finding('R-MODE', mod.split('.')[-2] + '.mode_to_int', 'rejects-' + nm,
+                                          'mode_to_int(%r) does not return a code' % nm, anchor=dwtlib.anchor(S, mod, 'mode_to_int')))
+                continue
+            t[nm] = o.value
+            back = S.run(i2m, o.value)
+            want = 'periodization' if nm == 'per' else nm
+            if back.kind != 'ok' or back.value != want:
+                out.append(dwtlib.finding('R-MODE', mod.split('.')[-2] + '.int_to_mode', 'roundtrip-' + nm,
+                                          'int_to_mode(mode_to_int(%r)) = %r' % (nm, getattr(back, 'value', back.exc)),
+                                          anchor=dwtlib.anchor(S, mod, 'int_to_mode')))
+        n += 1
+        if S.run(m2i, 'no-such-mode').kind != 'raises':
+            out.append(dwtlib.finding('R-MODE', mod.split('.')[-2] + '.mode_to_int', 'accepts-unknown',
+                                      'an unknown mode name is accepted', anchor=dwtlib.anchor(S, mod, 'mode_to_int')))
+        if len(set(t.values())) != len(names):
+            out.append(dwtlib.finding('R-MODE', mod.split('.')[-2] + '.mode_to_int', 'not-injective',
+                                      'two different modes share a code: %r' % t, anchor=dwtlib.anchor(S, mod, 'mode_to_int')))
+        tabs[mod] = t
+    a, b = list(tabs.values())
+    if a != b:
+        out.append(dwtlib.finding('R-MODE', 'mode tables', 'copies-disagree',
+                                  'dwt.lowlevel and scatternet.lowlevel encode modes differently: %r vs %r' % (a, b)))
+    S.take_findings()
+    S.take_events()
+    return out, n
+
+
 def check(ctx):
     one, two = configs(ctx)
     r1 = pmap(dwtlib.w_fwd1d, ctx.repo, one, ctx.jobs)
@@ -45,9 +87,14 @@ def check(ctx):
             samples.append(r['sample'])
     if cmp_ < 100:
         raise AnalysisError('instance-count', 'only %d comparisons were made' % cmp_)
+    mt, n_mt = mode_tables(ctx)
+    for f in mt:
+        f['property'] = 'C01'
+        f['key'] = 'C01|%s|%s|%s' % (f['rule'], f['construct'], f['discriminator'])
+        findings.append(f)
     cov = {
         'programs': cmp_, 'disagreements_checked': diff, 'samples': samples or [{'note': 'no agreeing sample'}],
-        'configs_1d': len(one), 'configs_2d': len(two),
+        'configs_1d': len(one), 'configs_2d': len(two), 'mode_table_obligations': n_mt,
         'grid': {'modes': list(dwtlib.MODES5), 'filter_lengths': lens_for(ctx),
                  'sizes_1d': '%d..%d' % (min(c[2] for c in one), max(c[2] for c in one))},
         'rule': 'each program = one (entry point, mode, filter length, size, levels) configuration interpreted '
